@@ -87,6 +87,15 @@ Definition step_ok (k : kind) (before after : snap) (uo : bool * op) : bool :=
          end))
   (* only links are removed: associated records survive unless Unscoped *)
   && (u || subset (n_tgts before) (n_tgts after))
+  (* ... and WITH Unscoped the records of the removed links are removed too (has one / has many /
+     belongs to; many2many only ever deletes join rows): a record that was linked to an owner of
+     the handle before and is linked to none of them after must be gone *)
+  && (negb u
+      || match k with KM2M => true | _ =>
+           let linked_after := List.concat (n_links after) in
+           forallb (fun t => memz t linked_after || negb (memz t (n_tgts after)))
+                   (List.concat (n_links before))
+         end)
   && snapshot_ok k after.
 
 Fixpoint steps_ok (k : kind) (prev : snap) (snaps : list snap) (ops : list (bool * op)) : bool :=
